@@ -387,6 +387,8 @@ func init() {
 		return nil
 	})
 	reg(rt+"NativeExtraFiles", func(fr *frame, args []Value) Value { return fr.e.tt.False })
+	reg(rt+"NativeAtomicDest", func(fr *frame, args []Value) Value { return nil })
+	reg(rt+"NativeEnd", func(fr *frame, args []Value) Value { return nil })
 	reg(rt+"NativeSubRoot", func(fr *frame, args []Value) Value { return nil })
 	reg(rt+"FsStatDirs", func(fr *frame, args []Value) Value {
 		fr.e.fsStatDirs = fr.e.branch(args[0].(*Term))
